@@ -58,9 +58,20 @@ void sched_set_state_fn(unsigned long long (*fn)(void))
     state_fn = fn;
 }
 
+#ifndef SCHED_WATCHDOG_S
+#define SCHED_WATCHDOG_S 20
+#endif
 static long futex(int* uaddr, int op, int val)
 {
     return syscall(SYS_futex, uaddr, op, val, NULL, NULL, 0);
+}
+/* wait with a time-out (seconds); returns -1 with errno ETIMEDOUT when it elapsed */
+static long futex_timed(int* uaddr, int val, int seconds)
+{
+    struct timespec ts;
+    ts.tv_sec = seconds;
+    ts.tv_nsec = 0;
+    return syscall(SYS_futex, uaddr, FUTEX_WAIT_PRIVATE, val, &ts, NULL, 0);
 }
 static void wake(int* w)
 {
@@ -155,7 +166,28 @@ void sched_run(int nthreads, void (*body)(int, void*), void* arg, const unsigned
             }
             if (quiet)
                 break;
-            futex(&ctl, FUTEX_WAIT_PRIVATE, c);
+            /* The running thread must reach its next scheduling point (or finish) by itself.  If it does not within
+             * SCHED_WATCHDOG_S seconds it spins or blocks on something this scheduler does not model (a hand-written
+             * spin lock on atomics, a condition variable, ...).  The exploration cannot continue - all other threads are
+             * parked - so this is reported at once instead of running into the job's time limit. */
+            if (futex_timed(&ctl, c, SCHED_WATCHDOG_S) == -1 && errno == ETIMEDOUT)
+            {
+                int still = 0;
+                for (i = 0; i < nthreads; i++)
+                {
+                    int s2 = __atomic_load_n(&state[i], __ATOMIC_SEQ_CST);
+                    if (s2 == ST_NEW || s2 == ST_RUNNING)
+                        still = 1;
+                }
+                if (still && __atomic_load_n(&ctl, __ATOMIC_SEQ_CST) == c)
+                {
+                    static const char msg[] = "SCHED: a scheduled thread did not reach a scheduling point within the watchdog time: it waits (spins or blocks) on "
+                                              "something the scheduler does not model while every other thread is parked\n";
+                    (void)!write(2, msg, sizeof msg - 1);
+                    res->stuck = 1;
+                    _exit(97);
+                }
+            }
         }
         for (i = 0; i < nthreads; i++)
             if (state[i] != ST_FINISHED)
